@@ -40,7 +40,9 @@ PROPS["C12"] = {
                    "one-element and the empty list; for the dimension filters all six RangeBounds kinds with bounds around every catalogue "
                    "width / height; for first_symbol_big_enough_for every n around every capacity) with BTreeSet modelled as a sorted "
                    "duplicate-free list in the order ORD establishes, and compares the result with the specification computed from the "
-                   "extracted tables; the statement-shape wiring rules remain as the fallback for a function the folder has no model for.",
+                   "extracted tables; the statement-shape wiring rules remain as the fallback for a function the folder has no model for. "
+                   "The builder side: every setter changes its own option only (FNC1 setter:*) and encode_eci hands the builder's own "
+                   "symbol list to the encoder (PROV-PIPE encode:option:symbol_list).",
     "trusted_base": ["rustc type checking / THIR construction", "rules/thirlib.py Folder: models of BTreeSet (sorted, duplicate-free) and RangeBounds::contains",
                      "reference/symbols.json (hand transcription of the standard, self-checked)", "rules/p_symbols.py"],
     "assumptions": ["default cargo features (extended_eci does not compile on the pinned tree)"],
@@ -249,8 +251,12 @@ PROPS["C01"] = {
                    "The symbol path of the round trip (module matrix, finder pattern, Reed-Solomon part) is decided per symbol size by folding "
                    "the functions on opaque values: PROV-RSENC + LFSR (every block's check codewords are the remainder modulo the standard's "
                    "generator, interleaved as specified), PROV-RSDEC + SYNDROMES (the decoder evaluates exactly those blocks at alpha^1..alpha^k, "
-                   "so an undamaged symbol has zero syndromes and is left alone), PLC-RW (writing then reading the mapping matrix is the identity "
-                   "and follows Annex F), RENDER-GEOM + PARSE-INV (parsing the rendered bitmap returns the content and the size). NOT decided: the "
+                   "so an undamaged symbol has zero syndromes and is left alone), PLC-RT (writer and reader of the mapping matrix folded per size: "
+                   "reading returns what was written and the traversal they share gives every codeword eight in-range modules of its own - "
+                   "whether these are Annex F's positions is C07's question, a self-consistent permutation keeps every round trip), RENDER-GEOM + "
+                   "PARSE-ACC (every rendered bitmap is accepted and parsed to its content and size; refusing non-renderings is C08's question). "
+                   "PROV-PIPE's per-option obligations (which builder options reach the encoder) are not part of this rule set: the round trip "
+                   "holds whatever options are passed. NOT decided: the "
                    "main loops of the six mode encoders (which characters reach the end-of-data code), planner/encoder agreement on prices, and "
                    "that the decoder's state machine inverts every legal mode sequence.",
     "assumptions": ["default cargo features"],
@@ -347,7 +353,7 @@ PROPS["C05"] = {
                    "Ledger classes: table-invariant (re-checked here: INV), counter<=len, quotient-remainder, reviewed (one reason each), "
                    "precondition (codeword vector of the symbol's length), std-internal, alloc-failure, relies-on:<rule> (discharged by a rule of this "
                    "run - PLC-INDEX: the traversal folded for the mapping matrix of all 48 sizes evaluates every index and every debug "
-                   "assertion of the placement without a trap and hands out Annex F's indices, and every map the crate builds has h*w "
+                   "assertion of the placement without a trap and hands out h*w/8 groups of eight distinct in-range indices, and every map the crate builds has h*w "
                    "entries), and not-decided (Reed-Solomon index algebra) which are reported as UNDECIDED. DIV-GUARD classifies every GF division's "
                    "divisor (GF::div's zero assertion is shared by all callers); the decision tables of read_eci / ISO-8859-9/-11 are "
                    "folded over all inputs and any trap is reported. Termination part: T-ALT (decode_ascii consumes >= 1 codeword, every "
